@@ -28,8 +28,25 @@ T_Set == /\ Ev.ev = "SMSet" /\ UNCHANGED sm /\ vec' = Ev.vec
          /\ Chk("C11 updated value (through unit conversion)",
                 VecCloseTol(Ev.vec, IF Ev.op = "set" THEN SetVal(Ev.name, Ev.unit, Ev.val) ELSE AddVal(Ev.name, Ev.unit, Ev.val), 1500))
          /\ Chk("C11 read back in the same unit", SCloseTo(Ev.back, GetOf(sm, Ev.vec, Ev.name, Ev.unit), SAdd(SAbs(Ev.back), SInt(1)), 1500))
+(* application level: the state model of the search instance built for a query.  The models' features reach the state
+   model through a hash map, so their relative order is not fixed: the slots must be a bijection onto the expected
+   feature set (config < models < query), each with its declared unit and initial value. *)
+T_App == /\ Ev.ev = "SMApp" /\ UNCHANGED <<sm, vec>>
+         /\ Chk("C11 the instance is built", Ev.ok)
+         /\ LET E == Ev.expect
+                N == {E[i].name : i \in DOMAIN E}
+                o == Ev.obs
+            IN /\ Chk("C11 one slot per feature, slots 0..n-1, none shared or skipped",
+                      /\ o.len = Len(E) /\ Len(o.names) = Len(E) /\ Cardinality(N) = Len(E)
+                      /\ {o.names[i] : i \in DOMAIN o.names} = N
+                      /\ \A i \in DOMAIN o.names : o.index[i] = i - 1 /\ o.vecnames[i] = o.names[i]
+                      /\ o.contains /\ Len(Ev.vec) = Len(E))
+               /\ Chk("C11 every feature has the unit and initial value declared for it (query over models over configuration)",
+                      \A i \in DOMAIN o.names : \E j \in DOMAIN E :
+                          /\ E[j].name = o.names[i] /\ Ev.units[i] = E[j].unit
+                          /\ SCloseTo(Ev.vec[i], E[j].init, SAdd(SAbs(E[j].init), SInt(1)), 10))
 TInit == l = 1 /\ sm = <<>> /\ vec = <<>>
-TNext == l <= Len(Rec) /\ l' = l + 1 /\ (T_New \/ T_Extend \/ T_Init \/ T_Get \/ T_Set)
+TNext == l <= Len(Rec) /\ l' = l + 1 /\ (T_New \/ T_Extend \/ T_Init \/ T_Get \/ T_Set \/ T_App)
 TSpec == TInit /\ [][TNext]_tvars
 Track == TrackPos(l)
 NotStop == NotStopped(l)
